@@ -75,6 +75,14 @@ fn main() {
                     let Some(def) = dlv::props::all().into_iter().find(|p| p.id == args[2]) else { return 2 };
                     dlv::engine::run_shard_process(&def, tier, seed, verif_dir(), &args[4], args[5].parse().unwrap_or(0))
                 }
+                "tape" => {
+                    // dlv tape <ID> <phase> <file>: evaluate a raw choice tape (fuzzer artifact)
+                    if args.len() < 5 {
+                        usage();
+                    }
+                    let Some(def) = dlv::props::all().into_iter().find(|p| p.id == args[2]) else { return 2 };
+                    dlv::engine::run_tape_file(&def, verif_dir(), &args[3], std::path::Path::new(&args[4]))
+                }
                 "replay" => {
                     if args.len() < 3 {
                         usage();
